@@ -714,6 +714,13 @@ func hostileLiterals() []hostile {
 		add(fmt.Sprintf("deep-maps-as-objects-%d", n), rep("m1{s2\"up\"", n)+"n"+rep("}", n))
 		add(fmt.Sprintf("deep-mixed-%d", n), rep("a1{m1{1", n/2)+"n"+rep("}}", n/2))
 	}
+	// an object of an unknown class is a map that can contain itself; referenced where a string is wanted
+	add("cyclic-map-referenced-as-string", "a2{c1\"X\"1{s1\"a\"}o0{r2;}r2;}")
+	add("cyclic-list-referenced-as-string", "a2{a1{r1;}r1;}")
+	add("cyclic-map-as-map-key", "a2{m1{s1\"k\"r1;}m1{r1;1}}")
+	// nested headers that each announce as many elements as bytes remain: the loops of all levels must stop at the first error
+	add("nested-counts-over-a-short-tail", rep("a49999{", 2000)+rep("n", 50000))
+	add("nested-map-counts-over-a-short-tail", rep("m24999{", 2000)+rep("n", 50000))
 	long := rep("x", 50000)
 	add("many-references-to-a-long-string", "a1001{s50000\""+long+"\""+rep("r1;", 1000)+"}")
 	add("many-references-to-long-bytes", "a1001{b50000\""+long+"\""+rep("r1;", 1000)+"}")
